@@ -24,7 +24,11 @@ fn dump(node: NRef, idx: &HashMap<String, usize>) -> Value {
     if let Some(var) = syn::Variable::cast(node) {
         let q = var.qualifier().map(|q| q.ident().as_ref().to_owned());
         let span = node.span().map(|s| s.start()).unwrap_or(0);
-        return json!({"k": "var", "id": me, "q": q, "x": var.ident().as_ref(), "s": span});
+        let end = node.span().map(|s| s.end()).unwrap_or(0);
+        let ispan = var.identifier().node().span().map(|s| (s.start(), s.end())).unwrap_or((0, 0));
+        let qspan = var.qualifier().and_then(|q| q.node().span()).map(|s| (s.start(), s.end()));
+        return json!({"k": "var", "id": me, "q": q, "x": var.ident().as_ref(), "s": span, "e": end, "is": ispan.0, "ie": ispan.1,
+            "qs": qspan.map(|x| x.0), "qe": qspan.map(|x| x.1)});
     }
     if let Some(rec) = syn::Recursion::cast(node) {
         let b = rec.binding();
@@ -135,7 +139,24 @@ pub fn run() {
                     json!({"defs": defs})
                 }
             };
-            json!({"status": "ok", "imports": imports, "stmts": stmts, "outcome": outcome})
+            // spans of every node a definition can point to (declarations, bindings) and of declaration identifiers
+            let mut spans = serde_json::Map::new();
+            for n in tree.root().descendants() {
+                if let Some(d) = syn::Declaration::cast(n) {
+                    let sp = n.span().map(|s| (s.start(), s.end())).unwrap_or((0, 0));
+                    let isp = d.identifier().node().span().map(|s| (s.start(), s.end())).unwrap_or((0, 0));
+                    spans.insert(idx[&format!("{:?}", n.index())].to_string(), json!({"kind": "decl", "span": [sp.0, sp.1], "ident": [isp.0, isp.1], "name": d.ident().as_ref()}));
+                } else if let Some(b) = syn::Binding::cast(n) {
+                    let sp = n.span().map(|s| (s.start(), s.end())).unwrap_or((0, 0));
+                    spans.insert(idx[&format!("{:?}", n.index())].to_string(), json!({"kind": "binding", "span": [sp.0, sp.1], "ident": [sp.0, sp.1], "name": b.ident().as_ref()}));
+                } else if let Some(q) = syn::Qualifier::cast(n) {
+                    if let Some(i) = q.identifier() {
+                        let sp = i.node().span().map(|s| (s.start(), s.end())).unwrap_or((0, 0));
+                        spans.insert(idx[&format!("{:?}", n.index())].to_string(), json!({"kind": "qualifier", "span": [sp.0, sp.1], "ident": [sp.0, sp.1], "name": i.ident().as_ref()}));
+                    }
+                }
+            }
+            json!({"status": "ok", "imports": imports, "stmts": stmts, "outcome": outcome, "spans": spans})
         }));
         writeln!(out, "{}", res).unwrap();
         out.flush().unwrap();
